@@ -12,8 +12,12 @@ TIMER = {'test': 'TestVerifTimer', 'comp': 'timer', 'quick': {'VERIF_N': 200, 'V
          'thorough': {'VERIF_N': 4000, 'VERIF_OPS': 40}, 'seeds': {'quick': 1, 'thorough': 4}, 'corpus_glob': 'timer_*.ops'}
 
 
-ASND = {'test': 'TestVerifAssocSender', 'comp': 'as', 'quick': {'VERIF_N': 150, 'VERIF_OPS': 200},
+ASND = {'test': 'TestVerifAssocSender', 'comp': 'as', 'pairs': True, 'quick': {'VERIF_N': 150, 'VERIF_OPS': 200},
         'thorough': {'VERIF_N': 600, 'VERIF_OPS': 300}, 'seeds': {'quick': 1, 'thorough': 8}}
+
+
+HSD = {'test': 'TestVerifHandshake', 'comp': 'hs', 'quick': {'VERIF_N': 96},
+       'thorough': {'VERIF_N': 960}, 'seeds': {'quick': 1, 'thorough': 8}}
 
 
 def e2e(mode, test, nq=300, nt=1500):
@@ -44,7 +48,7 @@ REASM = {'test': 'TestVerifReasm', 'comp': 'reasm', 'quick': {'VERIF_N': 300, 'V
 
 PROPS = {
     'C05': {'jobs': [RQ]},
-    'C16': {'jobs': [GENF, RQ]},
+    'C16': {'jobs': [GENF, RQ, ASND]},
     'C01': {'jobs': [REASM, E2E_T], 'assumptions': [
         'component theorem: the association hands each TSN to the stream at most once (C05) and chunks are the sender\'s fragments',
         'fewer than 2^15 ordered messages of a stream outstanding (SSN half-space; known finding D15); fewer than 2^31 TSNs/MIDs outstanding']},
@@ -54,10 +58,13 @@ PROPS = {
     'C06': {'jobs': [E2E_PR, E2E_T, REASM], 'rule': E2E_RULE},
     'C07': {'jobs': [E2E_PR], 'rule': E2E_RULE},
     'C08': {'jobs': [E2E_SD], 'rule': E2E_RULE},
-    'C04': {'jobs': [E2E_HS, E2E_T], 'rule': E2E_RULE},
+    'C04': {'jobs': [HSD, E2E_HS, E2E_T], 'assumptions': [
+        'theorems are about the L0 model Hs (two endpoints + packet histories); the model is replayed line by line against two real associations driven by a packet shuffler (TestVerifHandshake)',
+        'the blocking behaviour of Client/Server calls, T1 retry budget and connect failure are covered by the e2e handshake scenarios and by C19 theorems, not by the Hs model',
+        'verification tags and ports are not part of the model (the implementation does not check inbound verification tags)']},
     'C14': {'jobs': [E2E_RS], 'rule': E2E_RULE},
     'C10': {'jobs': [ASND, E2E_T]},
-    'C15': {'jobs': [ASND, E2E_T, E2E_PR]},
+    'C15': {'jobs': [ASND, E2E_T, E2E_PR, E2E_API]},
     'C18': {'jobs': [E2E_API, E2E_SD], 'rule': E2E_RULE},
     'C09': {'jobs': [E2E_TD, E2E_SD, E2E_HS], 'rule': E2E_RULE},
     'C19': {'jobs': [RTO, TIMER], 'assumptions': [
